@@ -578,6 +578,42 @@ json observe(Session &s) {
         o["ents"] = v;
         for (auto &x : w.issues) o["issues"].push_back(x);
         s.fresh = w.fresh;
+        // has(handle) is about the entity the handle denotes: a handle of ANOTHER entity of the same kind - in particular a namesake
+        // living under another parent - is not in the container
+        {
+            std::map<long, std::pair<long, std::string>> parentOf;     // child eid -> (parent eid, slot)
+            for (auto &e : w.ents) for (auto it = e["kids"].begin(); it != e["kids"].end(); ++it)
+                for (auto &c : it.value()) if (c.is_number_integer()) parentOf[c.get<long>()] = {e["eid"].get<long>(), it.key()};
+            size_t asked = 0;
+            for (auto &a : w.fresh) for (auto &b : w.fresh) {
+                if (asked >= 60) break;
+                if (a.first == b.first || a.second.kind != b.second.kind) continue;
+                auto pa = parentOf.find(a.first), pb = parentOf.find(b.first);
+                if (pa == parentOf.end() || pb == parentOf.end() || pa->second.second != pb->second.second) continue;
+                if (pa->second.first == pb->second.first) continue;                       // same parent: listed there, judged by the container check
+                const std::string &slot = pa->second.second; long par = pa->second.first;
+                if (slot != "sections" && slot != "props" && slot != "sources" && slot != "arrays" && slot != "frames" && slot != "tags" && slot != "mtags" && slot != "groups") continue;
+                bool got = false;
+                try {
+                    const Ent &x = b.second;      // a handle of another entity of the same kind, owned by another parent
+                    if (par == 0) { if (slot == "sections") got = s.f.hasSection(x.section); else continue; }
+                    else {
+                        auto ph = w.fresh.find(par); if (ph == w.fresh.end()) continue;
+                        const Ent &P = ph->second;
+                        if (slot == "sections") got = P.section.hasSection(x.section);
+                        else if (slot == "props") got = P.section.hasProperty(x.prop);
+                        else if (slot == "sources") got = P.kind == "block" ? P.block.hasSource(x.source) : P.source.hasSource(x.source);
+                        else if (slot == "arrays") got = P.block.hasDataArray(x.array);
+                        else if (slot == "frames") got = P.block.hasDataFrame(x.frame);
+                        else if (slot == "tags") got = P.block.hasTag(x.tag);
+                        else if (slot == "mtags") got = P.block.hasMultiTag(x.mtag);
+                        else if (slot == "groups") got = P.block.hasGroup(x.group);
+                    }
+                    asked++;
+                } catch (const std::exception &) { continue; }
+                if (got) o["issues"].push_back("has(handle) is true for a handle of another entity (eid " + std::to_string(b.first) + ") owned by another parent, asked of the parent of eid " + std::to_string(a.first) + " (" + slot + ")");
+            }
+        }
         // descriptor handles kept from the append calls against fresh look-ups of the same descriptors
         for (auto &kd : s.keptDims) {
             auto fr = s.fresh.find(kd.first);
